@@ -39,7 +39,11 @@ IsR1(g) == g.k = "R" /\ g.n = 1
 IdCoeffs(g) == GIdentity(g)
 
 \* a register: abstract tree, model state (only meaningful for G = R), validity flag
-EmptyReg(g) == [t |-> GEmpty(IdCoeffs(g)), i |-> SC(1)!IEmpty(R0), ok |-> TRUE]
+\* ri: the model state i is in step with the library's representation.  It is lost (without a verdict) when a crop
+\* boundary lies within rounding of a knot: the library's knots are rounded sums of durations, the model's are exact,
+\* so the two may legitimately put the boundary into different segments (a sliver segment on one side only).  The
+\* curve-level clauses (eval, t_max, start, end) go on; only the representation comparison stops for that register.
+EmptyReg(g) == [t |-> GEmpty(IdCoeffs(g)), i |-> SC(1)!IEmpty(R0), ok |-> TRUE, ri |-> TRUE]
 
 ---------------------------------------------------------------------------
 \* comparisons
@@ -160,7 +164,7 @@ StepSeg(regs, e) ==
       Vt == RForce([i \in 1..k |-> V(e.V[i])])
       tree == GSeg(D(e.T), Vt, V(e.ga))
       im == IF IsR1(g) THEN SC(k)!ISeg(D(e.T), Tuple1(Vt), D(e.ga[1])) ELSE SC(1)!IEmpty(R0)
-  IN <<[regs EXCEPT ![e.dst] = [t |-> tree, i |-> im, ok |-> TRUE]],
+  IN <<[regs EXCEPT ![e.dst] = [t |-> tree, i |-> im, ok |-> TRUE, ri |-> TRUE]],
        (IF IsR1(g) THEN RepChk(e, im) ELSE <<>>) \o ObsChk(e, "C12.eval", tree)>>
 
 StepCV(regs, e) ==
@@ -168,7 +172,7 @@ StepCV(regs, e) ==
       tree == GCV(T, v, V(e.ga))
       im == IF IsR1(g) THEN SC(k)!ISeg(T, [i \in 1..k |-> RDiv(RMul(T, v[1]), RFromInt(k))], D(e.ga[1]))
             ELSE SC(1)!IEmpty(R0)
-  IN <<[regs EXCEPT ![e.dst] = [t |-> tree, i |-> im, ok |-> TRUE]],
+  IN <<[regs EXCEPT ![e.dst] = [t |-> tree, i |-> im, ok |-> TRUE, ri |-> TRUE]],
        (IF IsR1(g) THEN RepChk(e, im) ELSE <<>>) \o ObsChk(e, "C12.cv", tree)>>
 
 StepCubic(regs, e) ==
@@ -179,7 +183,7 @@ StepCubic(regs, e) ==
       im == IF IsR1(g) THEN SC(k)!ISeg(T, Tuple1(Vt), D(e.ga[1])) ELSE SC(1)!IEmpty(R0)
       a0 == AEvG(g, k, tree, R0, "R")
       a1 == AEvG(g, k, tree, T, "L")
-  IN <<[regs EXCEPT ![e.dst] = [t |-> tree, i |-> im, ok |-> TRUE]],
+  IN <<[regs EXCEPT ![e.dst] = [t |-> tree, i |-> im, ok |-> TRUE, ri |-> TRUE]],
        ChkR("C12.cubic.start", RelOkM(a0[1], GMat(g, V(e.ga)), TolVal), RelErrM(a0[1], GMat(g, V(e.ga))), TolVal)
        \o ChkR("C12.cubic.end", RelOkM(a1[1], GMat(g, V(e.gb)), TolVal), RelErrM(a1[1], GMat(g, V(e.gb))), TolVal)
        \o ChkR("C12.cubic.va", TanOk(a0[2], V(e.va)), RelErrV(a0[2], V(e.va)), TolDer)
@@ -194,9 +198,10 @@ StepCat(regs, e, local) ==
       im == IF IsR1(g) THEN (IF local THEN SC(k)!IConcatLocal(d.i, s.i) ELSE SC(k)!IConcatGlobal(d.i, s.i)) ELSE d.i
       clause == IF local THEN "C12.concat_local" ELSE "C12.concat_global"
       okk == d.ok /\ s.ok
-  IN <<[regs EXCEPT ![e.dst] = [t |-> tree, i |-> im, ok |-> okk]],
+      rii == d.ri /\ s.ri
+  IN <<[regs EXCEPT ![e.dst] = [t |-> tree, i |-> im, ok |-> okk, ri |-> rii]],
        IF ~okk THEN <<>>
-       ELSE (IF IsR1(g) THEN RepChk(e, im) ELSE <<>>) \o ObsChk(e, clause, tree)>>
+       ELSE (IF IsR1(g) /\ rii THEN RepChk(e, im) ELSE <<>>) \o ObsChk(e, clause, tree)>>
 
 StepCrop(regs, e) ==
   LET g == e.g  k == e.K
@@ -207,11 +212,15 @@ StepCrop(regs, e) ==
       NearJump(x) == \E j \in GJumps(g, k, s.t) : RLeq(RAbs(RSub(x, j)), RMul(Dec(1, -12), RMax(R1, RAbs(x))))
       indom == s.ok /\ RLt(a, b) /\ ~NearJump(a) /\ ~NearJump(b)
       tree == GCrop(s.t, ta, tb, loc)
-      r == IF IsR1(g) /\ indom THEN SC(k)!ICrop(s.i, ta, tb, loc) ELSE [ok |-> TRUE, s |-> s.i]
+      model == IsR1(g) /\ indom /\ s.ri
+      r == IF model THEN SC(k)!ICrop(s.i, ta, tb, loc) ELSE [ok |-> TRUE, s |-> s.i]
+      NearKnot(x) == \E j \in 1..Len(s.i.end_t) : RLeq(RAbs(RSub(x, s.i.end_t[j])), RMul(Dec(1, -12), RMax(R1, RAbs(x))))
+      rep == IF model /\ r.ok THEN RepChk(e, r.s) ELSE <<>>
+      sliver == model /\ r.ok /\ (NearKnot(a) \/ NearKnot(b)) /\ Len(rep) = 1 /\ rep[1].clause = "C12.rep.size"
   IN IF ~indom
-     THEN <<[regs EXCEPT ![e.dst] = [t |-> tree, i |-> s.i, ok |-> FALSE]], <<>>>>
-     ELSE <<[regs EXCEPT ![e.dst] = [t |-> tree, i |-> (IF r.ok THEN r.s ELSE s.i), ok |-> TRUE]],
-            (IF IsR1(g) THEN (IF r.ok THEN RepChk(e, r.s) ELSE Fail("TOOL.model", "model crop divides by zero", "")) ELSE <<>>)
+     THEN <<[regs EXCEPT ![e.dst] = [t |-> tree, i |-> s.i, ok |-> FALSE, ri |-> FALSE]], <<>>>>
+     ELSE <<[regs EXCEPT ![e.dst] = [t |-> tree, i |-> (IF r.ok THEN r.s ELSE s.i), ok |-> TRUE, ri |-> model /\ r.ok /\ ~sliver]],
+            (IF model THEN (IF r.ok THEN (IF sliver THEN <<>> ELSE rep) ELSE Fail("TOOL.model", "model crop divides by zero", "")) ELSE <<>>)
             \o ObsChk(e, "C12.crop", tree)>>
 
 StepEval(regs, e) ==
